@@ -9,6 +9,7 @@ import (
 	"net"
 	"runtime"
 	"sync"
+	"sync/atomic"
 	"testing"
 	"time"
 
@@ -785,3 +786,148 @@ func TestAgedClientConcurrency(t *testing.T) {
 		}
 	}
 }
+
+// ---------------------------------------------------------------------------
+// goroutines that poll the SAME register with byte-identical requests while another goroutine writes increasing values to it: every
+// call is an exchange of its own on the wire (one request frame each), and a read that started after write k had returned must see a
+// value >= k - the reply to ITS request, not to somebody else's earlier, identical one.
+
+type pollCase struct {
+	Kind    string `json:"kind"` // tcp | rtu-net | serial | serial-flush
+	Readers int    `json:"readers"`
+	Polls   int    `json:"polls"`
+	Writes  int    `json:"writes"`
+	Seed    uint64 `json:"seed"`
+	// DelayUs: the device takes this long per reply, so that callers queue
+	DelayUs int `json:"delay_us"`
+}
+
+func runPolls(c pollCase) harness.Result {
+	f := framingOf(c.Kind)
+	mon := &xport.Monitor{F: f, Dev: device.New(c.Seed), Serial: isSerial(c.Kind)}
+	mon.Delay = func(r spec.Req) time.Duration { return time.Duration(c.DelayUs) * time.Microsecond }
+	var do func(context.Context, packet.Request) (packet.Response, error)
+	if isSerial(c.Kind) {
+		sp := serialPort{mon.NewConn()}
+		var port io.ReadWriteCloser = sp
+		if c.Kind == "serial-flush" {
+			port = serialPortFlusher{sp}
+		}
+		do = modbus.NewSerialClient(port, modbus.WithSerialReadTimeout(5*time.Second)).Do
+	} else {
+		conf := modbus.ClientConfig{ReadTimeout: 5 * time.Second, WriteTimeout: time.Second,
+			DialContextFunc: func(ctx context.Context, address string) (net.Conn, error) { return mon.NewConn(), nil }}
+		var cl *modbus.Client
+		if c.Kind == "tcp" {
+			cl = modbus.NewTCPClientWithConfig(conf)
+		} else {
+			cl = modbus.NewRTUClientWithConfig(conf)
+		}
+		if err := cl.Connect(context.Background(), "arrival:1"); err != nil {
+			return harness.Fail("connect: %v", err)
+		}
+		do = cl.Do
+	}
+	const unit, addr = 7, 300
+	// the register starts at 0
+	if q, err := cat.NewRequest(f, spec.Req{FC: 6, Unit: unit, Tx: 1, Addr: addr, Value: 0}); err != nil {
+		return harness.Fail("harness: %v", err)
+	} else if _, err := do(context.Background(), q); err != nil {
+		return harness.Fail("initial write failed: %v", err)
+	}
+	var written atomic.Int64 // highest value whose write call has returned
+	errs := make([]error, c.Readers+1)
+	var calls atomic.Int64
+	calls.Add(1)
+	var wg sync.WaitGroup
+	start := make(chan struct{})
+	wg.Add(1)
+	go func() {
+		defer wg.Done()
+		<-start
+		for k := 1; k <= c.Writes; k++ {
+			q, err := cat.NewRequest(f, spec.Req{FC: 6, Unit: unit, Tx: uint16(1000 + k), Addr: addr, Value: uint16(k)})
+			if err != nil {
+				errs[c.Readers] = err
+				return
+			}
+			calls.Add(1)
+			if _, err := do(context.Background(), q); err != nil {
+				errs[c.Readers] = fmt.Errorf("write %d failed: %v", k, err)
+				return
+			}
+			written.Store(int64(k))
+		}
+	}()
+	for g := 0; g < c.Readers; g++ {
+		wg.Add(1)
+		go func(g int) {
+			defer wg.Done()
+			<-start
+			last := int64(0)
+			for m := 0; m < c.Polls; m++ {
+				// every reader sends the very same frame every time
+				q, err := cat.NewRequest(f, spec.Req{FC: 3, Unit: unit, Tx: 77, Addr: addr, Qty: 1})
+				if err != nil {
+					errs[g] = err
+					return
+				}
+				floor := written.Load()
+				if last > floor {
+					floor = last
+				}
+				calls.Add(1)
+				resp, err := do(context.Background(), q)
+				if err != nil {
+					errs[g] = fmt.Errorf("reader %d poll %d failed: %v", g, m, err)
+					return
+				}
+				b := resp.Bytes()
+				n := len(b)
+				if f == spec.RTU {
+					n -= 2
+				}
+				if n < 2 {
+					errs[g] = fmt.Errorf("reader %d poll %d: reply %x too short", g, m, b)
+					return
+				}
+				v := int64(b[n-2])<<8 | int64(b[n-1])
+				if v < floor {
+					errs[g] = fmt.Errorf("reader %d poll %d read the value %d although the write of %d had returned (or this reader had already read it) before the poll started: a stale reply (%x)", g, m, v, floor, b)
+					return
+				}
+				last = v
+			}
+		}(g)
+	}
+	close(start)
+	done := make(chan struct{})
+	go func() { wg.Wait(); close(done) }()
+	select {
+	case <-done:
+	case <-time.After(60 * time.Second):
+		return harness.Fail("polling scenario did not finish within 60 s")
+	}
+	for _, e := range errs {
+		if e != nil {
+			return harness.Result{Err: e, NonTrivial: true}
+		}
+	}
+	violations, arrivals := mon.Snapshot()
+	if len(violations) > 0 {
+		return harness.Fail("transport monitor: %s", violations[0])
+	}
+	if int64(len(arrivals)) != calls.Load() {
+		return harness.Fail("%d request calls returned successfully but %d request frames reached the transport: a call was answered without an exchange of its own", calls.Load(), len(arrivals))
+	}
+	return harness.Result{NonTrivial: c.Readers >= 2 && c.Writes >= 2, Labels: []string{"kind:" + c.Kind, fmt.Sprintf("identical-polls-readers:%d", c.Readers)}, Weight: calls.Load()}
+}
+
+var chkPolls = harness.Define("identical-polls-while-writing",
+	func(t *rapid.T) pollCase {
+		return pollCase{Kind: rapid.SampledFrom([]string{"tcp", "rtu-net", "serial", "serial-flush"}).Draw(t, "kind"), Readers: rapid.IntRange(2, 6).Draw(t, "readers"),
+			Polls: rapid.IntRange(3, 12).Draw(t, "polls"), Writes: rapid.IntRange(2, 10).Draw(t, "writes"), Seed: rapid.Uint64().Draw(t, "seed"),
+			DelayUs: rapid.SampledFrom([]int{0, 100, 500}).Draw(t, "delay_us")}
+	}, runPolls)
+
+func TestIdenticalPolls(t *testing.T) { chkPolls.Rapid(t, harness.Pick(12, 300)) }
